@@ -72,3 +72,50 @@ Definition deliver_rule (pending : option nat) (matches : list bool) : N * dlv_c
     let '(a, f) := deliver_loop req matches in
     (N.of_nat a, if negb f then DlvOk else if Nat.ltb 0 a then DlvPartial else DlvStale)
   end.
+
+(* ---- aqua/handler.go handleMsg, GetBlockHeadersMsg: which headers are served, on the
+   canonical chain 0..H (header n has hash "n"), for the four modes (origin by hash | number)
+   x (forward | reverse).  uint64 / int conversions and wrap-arounds as in the code:
+     loop guard  len(headers) < int(query.Amount) && bytes < softResponseLimit && len(headers) < MaxHeaderFetch
+     hash, reverse   for i := 0; i < int(query.Skip)+1; i++ { walk one parent }   (int may be <= 0: no step)
+     hash, forward   next = current + Skip + 1; next <= current => stop (overflow guard); header next must exist
+     number, reverse if Number >= Skip+1 { Number -= Skip+1 } else stop           (Skip+1 wraps to 0)
+     number, forward Number += Skip + 1                                           (wraps) *)
+Definition two64N : N := 18446744073709551616.
+Definition int_of_u64 (x : N) : Z := if x <? two63N then Z.of_N x else (Z.of_N x - Z.of_N two64N)%Z.
+Definition i64 (z : Z) : Z := ((z + Z.of_N two63N) mod Z.of_N two64N - Z.of_N two63N)%Z.
+
+Definition hdr_next (H : N) (hashmode reverse : bool) (skip cur : N) : option N :=
+  let s1 := (skip + 1) mod two64N in
+  if hashmode then
+    if reverse then
+      let k := i64 (int_of_u64 skip + 1) in
+      if (k <=? 0)%Z then Some cur                       (* the parent walk does not run: same header again *)
+      else if (k <=? Z.of_N cur)%Z then Some (cur - Z.to_N k)
+      else None                                          (* walked past genesis *)
+    else
+      let next := (cur + s1) mod two64N in
+      if next <=? cur then None                          (* "skip overflow attack" guard *)
+      else if next <=? H then Some next else None
+  else
+    if reverse then (if s1 <=? cur then Some (cur - s1) else None)
+    else Some ((cur + s1) mod two64N).
+
+Fixpoint hdr_loop (fuel : nat) (H : N) (hashmode reverse : bool) (amount skip cur count : N) : list N :=
+  match fuel with
+  | O => []
+  | S f =>
+    if negb ((Z.of_N count <? int_of_u64 amount)%Z && (count * est_header_rlp_size <? soft_response_limit)
+             && (count <? max_header_fetch)) then []
+    else if H <? cur then []                              (* origin == nil *)
+    else cur :: match hdr_next H hashmode reverse skip cur with
+                | None => []
+                | Some c => hdr_loop f H hashmode reverse amount skip c (count + 1)
+                end
+  end.
+(* origin = None: a hash the node does not know *)
+Definition serve_headers (H : N) (hashmode : bool) (origin : option N) (amount skip : N) (reverse : bool) : list N :=
+  match origin with
+  | None => []
+  | Some o => hdr_loop 200 H hashmode reverse amount skip o 0
+  end.
